@@ -309,7 +309,11 @@ class ElectronicControlUnit:
             next_wakeup = self.j1939_dll.async_job_thread(now)
 
             # check timer events
-            for event in self._timer_events:
+            # iterate over a copy: callbacks may add/remove timers and expired events are removed below
+            for event in list(self._timer_events):
+                if event not in self._timer_events:
+                    # removed by a callback earlier in this pass
+                    continue
                 if event['deadline'] > now:
                     if next_wakeup > event['deadline']:
                         next_wakeup = event['deadline']
@@ -325,8 +329,9 @@ class ElectronicControlUnit:
                         if next_wakeup > event['deadline']:
                             next_wakeup = event['deadline']
                     else:
-                        # remove from list
-                        self._timer_events.remove( event )
+                        # remove from list (the callback may have removed itself already)
+                        if event in self._timer_events:
+                            self._timer_events.remove( event )
 
             time_to_sleep = next_wakeup - time.time()
             if time_to_sleep > 0:
